@@ -24,6 +24,7 @@
 Shared machinery: harness/statuslib.py (wrapped, not edited).
 """
 import contextlib
+import functools
 import gc
 import hashlib
 import json
@@ -81,9 +82,14 @@ META = {
                   'C03/C04\'s invariant.',
     'rule': 'statuslib histories (4-14 ops over 1-4 tasks, 1-3 source files, target->file_dep and result_dep edges) '
             'with a perturbation suffix (touch / edit / delete of a dependency or target, checker switch, ignore, '
-            'redefinition) before the last probe, 1-2 probe points per history, each probe = 25-35 read-only command '
+            'redefinition; ignore of a whole group followed by forget / reset-dep of one sub-task) before the last probe; 40% of '
+            'the multi-task histories put some tasks under a group task g as sub-tasks g:t<i> (a naming layer: model and '
+            'history keep talking about task i); clean attributes vary over 16 kinds (targets, cmd, python callables with '
+            '/ without a dryrun parameter: plain, **kwargs, *args, defaults, partials, callable objects), 1-2 probe points per history, each probe = 25-35 read-only command '
             'lines on copies + one oracle run; exhaustive tier: every word of length <= 2 (quick) / 3 (thorough) over a '
-            '12-letter perturbation alphabet after a successful run of a task with two dependencies and a target; '
+            '12-letter perturbation alphabet after a successful run of a task with two dependencies and a target, and over '
+            'an 8-letter alphabet on two sub-tasks of one group (ignore group / one, forget one / other, touch, run, checker, '
+            'reset-dep); '
             'non-trivial = some task shown not-run and some task shown run/error over the probes of the case, or a '
             'documented removal happened; distinct = distinct rendered history incl. backend, checker, probes',
     'assumptions': ['mtimes are set by the harness from an integer clock; md5 is treated as an injective content id',
@@ -102,7 +108,12 @@ META = {
 }
 
 CK_NAME = {'md5': 'MD5Checker', 'timestamp': 'TimestampChecker'}
-CLEAN_KINDS = ['none', 'targets', 'plain', 'aware+plain', 'plain+aware', 'cmd', 'aware']
+CLEAN_KINDS = ['none', 'targets', 'plain', 'aware+plain', 'plain+aware', 'cmd', 'aware',
+               # callables of other shapes that do NOT take `dryrun` (must not run on a dry run) ...
+               'kwargs', 'args', 'default', 'partial', 'object', 'aware+kwargs',
+               # ... and that do (documented: called with dryrun=True, responsible for doing nothing)
+               'partial-aware', 'object-aware', 'aware-default']
+GROUP = 'g'          # basename of the group task when a case has sub-tasks
 DB_SUFFIX = {'json': {''}, 'dbm': {'.dat', '.dir', '.bak'}, 'sqlite3': {'', '-journal', '-wal', '-shm'}}
 
 
@@ -135,8 +146,14 @@ class C20World(statuslib.World):
     case = None          # set by run_case before statuslib.evaluate
     last = None
 
+    queue = []           # cases of the batch being evaluated (one World is created per case, in order)
+    made = []
+
     def __init__(self, *a, **k):
         super(C20World, self).__init__(*a, **k)
+        if C20World.queue:
+            self.case = C20World.queue.pop(0)
+        C20World.made.append(self)
         self.events = []
         self.n_dump = 0
         self.probe_out = {}
@@ -169,6 +186,32 @@ class C20World(statuslib.World):
                         with open('cleaned-%d' % t, 'w') as f:
                             f.write('x')
 
+                def kwargs_clean(**opts):
+                    plain_clean()
+
+                def args_clean(*args):
+                    plain_clean()
+
+                def default_clean(flag=False, t=t):
+                    plain_clean()
+
+                def two_args_clean(tag, t2):
+                    plain_clean()
+
+                class ObjClean(object):
+                    def __call__(self):
+                        plain_clean()
+
+                class ObjAwareClean(object):
+                    def __call__(self, dryrun):
+                        aware_clean(dryrun)
+
+                def aware3(tag, dryrun):
+                    aware_clean(dryrun)
+
+                def aware_default(dryrun=False, t=t):
+                    aware_clean(dryrun)
+
                 def teardown(t=t):
                     world.events.append(('teardown', t))
 
@@ -188,12 +231,115 @@ class C20World(statuslib.World):
                     d['clean'] = [plain_clean, aware_clean]
                 elif kind == 'cmd':
                     d['clean'] = ['echo x > cleaned-%d' % t]
+                elif kind == 'kwargs':
+                    d['clean'] = [kwargs_clean]
+                elif kind == 'args':
+                    d['clean'] = [args_clean]
+                elif kind == 'default':
+                    d['clean'] = [default_clean]
+                elif kind == 'partial':
+                    d['clean'] = [functools.partial(two_args_clean, 'x', t)]
+                elif kind == 'object':
+                    d['clean'] = [ObjClean()]
+                elif kind == 'aware+kwargs':
+                    d['clean'] = [aware_clean, kwargs_clean]
+                elif kind == 'partial-aware':
+                    d['clean'] = [functools.partial(aware3, 'x')]
+                elif kind == 'object-aware':
+                    d['clean'] = [ObjAwareClean()]
+                elif kind == 'aware-default':
+                    d['clean'] = [aware_default]
                 return d
             ns['task_' + tname(t)] = creator
+        grp = self.group()
+        if grp:
+            subs = [(t, ns.pop('task_' + tname(t))) for t in sorted(grp)]
+
+            def task_g(subs=subs):
+                for t, creator in subs:
+                    d = creator()
+                    d['name'] = tname(t)
+                    yield d
+            task_g.__name__ = 'task_' + GROUP
+            ns = dict([('task_' + GROUP, task_g)] + list(ns.items())) if (self.case or {}).get('group_first', True) \
+                else dict(list(ns.items()) + [('task_' + GROUP, task_g)])
         return ns
 
+    # -- sub-tasks: a naming layer.  Task i of a case with 'group': [..i..] is the sub-task `g:t<i>` of the group task
+    #    `g` (no action of its own).  Histories, model and driver keep talking about task i.
+    def group(self):
+        return set((self.case or {}).get('group') or [])
+
+    def rname(self, t):
+        return '%s:%s' % (GROUP, tname(t)) if t in self.group() else tname(t)
+
+    def _uptodate(self, item):
+        if item[0] == 'res' and item[1] in self.group():
+            from doit.task import result_dep
+            return result_dep(self.rname(item[1]))
+        return super(C20World, self)._uptodate(item)
+
+    def translate(self, argv):
+        grp = self.group()
+        if list(argv) == ['reset-dep']:
+            # all tasks, in index order (statuslib reads the outcomes in that order; the group task has no state)
+            argv = ['reset-dep'] + [tname(t) for t in range(self.ntasks)]
+        named = [int(a[1:]) for a in argv[1:] if re.match(r'^t\d+$', a)]
+        out = []
+        # `doit ignore` naming every sub-task is issued as `doit ignore g` (marks the group and all its sub-tasks)
+        whole = argv and argv[0] == 'ignore' and grp and grp <= set(named)
+        done = False
+        for a in argv:
+            if re.match(r'^t\d+$', a) and int(a[1:]) in grp:
+                if whole:
+                    if not done:
+                        out.append(GROUP)
+                        done = True
+                else:
+                    out.append(self.rname(int(a[1:])))
+            else:
+                out.append(a)
+        return out
+
+    def doit(self, argv, reporter=None):
+        if not self.group():
+            return super(C20World, self).doit(argv, reporter)
+        inner = statuslib.RecordingReporter() if reporter is not None else None
+        code, out, err = super(C20World, self).doit(self.translate(list(argv)), inner)
+        if reporter is not None:
+            reporter.events = [(k, None if n is None else n.split(':', 1)[-1], i) for k, n, i in inner.events
+                               if n != GROUP]
+        unname = lambda text: re.sub(r'\b%s:(t\d+)\b' % GROUP, r'\1', text)   # noqa: E731
+        return code, unname(out), unname(err)
+
+    def _dump_names(self):
+        from doit import dependency as dep
+        cls = {'json': dep.JsonDB, 'dbm': dep.DbmDB, 'sqlite3': dep.SqliteDB}[self.backend]
+        db = cls(self.db, codec=dep.JSONCodec())
+        out = []
+        try:
+            for t in range(self.ntasks):
+                name = self.rname(t)
+                rec = {}
+                for key in ['_values_:', 'result:', 'checker:', 'deps:', 'ignore:']:
+                    rec[key] = db.get(name, key)
+                if isinstance(rec['_values_:'], dict):      # `_result:g:t0` (result_dep on a sub-task) -> `_result:t0`
+                    rec['_values_:'] = {k.replace('_result:%s:' % GROUP, '_result:'): v
+                                        for k, v in rec['_values_:'].items()}
+                rec['files'] = {p: db.get(name, fname(p)) for p in range(self.npaths)}
+                out.append(rec)
+        finally:
+            try:
+                if self.backend == 'dbm':
+                    db._dbm.close()
+                elif self.backend == 'sqlite3':
+                    db._conn.close()
+            except Exception:  # noqa
+                pass
+        return out
+
     def dump(self):
-        out = super(C20World, self).dump()
+        out = self._dump_names() if self.group() else super(C20World, self).dump()
         if self.in_probe:
             return out
         i = self.n_dump
@@ -492,19 +638,27 @@ def run_probe(world, spec):
         world.plan = saved_plan
         world.events = []
     return {'before': snap0, 'results': results, 'oracle': oracle, 'checker': world.checker,
-            'defs': json.loads(json.dumps(world.defs))}
+            'defs': json.loads(json.dumps(world.defs)), 'group': sorted(world.group())}
 
 
 # ----------------------------------------------------------------------------------------------
 # the command lines of a probe
 
-def list_order(argv, ntasks):
-    """print order of a `list` command line (no private tasks, no sub-tasks in these worlds)"""
+def list_order(argv, ntasks, group=()):
+    """print order (task indices) of a `list` command line: sub-tasks are shown only when named or with --all; lines
+    are sorted by the real task name (`g:t1` < `t0`) unless --sort definition; no private tasks in these worlds"""
+    group = set(group or ())
     names = [int(a[1:]) for a in argv[1:] if re.match(r'^t\d+$', a)]
-    base = names if names else list(range(ntasks))
+    if names:
+        base = names
+    elif '--all' in argv:
+        # definition order: the group's sub-tasks where the group task is defined (first)
+        base = sorted(group) + [t for t in range(ntasks) if t not in group]
+    else:
+        base = [t for t in range(ntasks) if t not in group]
     if 'definition' in argv:
         return base
-    return sorted(base, key=tname)
+    return sorted(base, key=lambda t: ('%s:%s' % (GROUP, tname(t))) if t in group else tname(t))
 
 
 def cmd_shape(argv):
@@ -664,62 +818,78 @@ class Outcome(object):
 
 def run_case(case):
     """execute one case; returns Outcome"""
+    return run_cases([case])[0]
+
+
+def run_cases(cases):
+    """execute a batch of cases (one driver process per phase for the whole batch); returns one Outcome per case"""
     common.use_repo()
     memoize_entry_points()
-    out = Outcome()
-    base_case = statuslib.strip(case)
-    base_case.pop('hashseed', None)
+    base_cases = []
+    for case in cases:
+        bc = statuslib.strip(case)
+        bc.pop('hashseed', None)
+        base_cases.append(bc)
     saved = statuslib.World
-    C20World.case = case
+    C20World.queue = list(cases)
+    C20World.made = []
     statuslib.World = C20World
     try:
-        v = statuslib.evaluate([base_case])[0]
+        verdicts = statuslib.evaluate(base_cases)
     finally:
         statuslib.World = saved
-    world = C20World.last
-    out.base = v
-    probes = world.probe_out
-    obs = v.obs
-    # model request: the history's model ops with a probe op after each probed history op
-    mreq, index = statuslib.to_model_ops(base_case, obs)
-    ops, where = [], {}
-    pos_of = {}
-    for i, (a, b) in enumerate(index):
-        pos_of[i] = b
-    ins = {}
-    for i, pr in probes.items():
-        if i < len(index):
-            ins.setdefault(pos_of[i], []).append(i)
-    for k, op in enumerate(mreq['ops']):
-        for i in ins.get(k, []):
+        C20World.queue = []
+    worlds = list(C20World.made)
+    assert len(worlds) == len(cases), (len(worlds), len(cases))
+    outs, reqs, wheres = [], [], []
+    for case, base_case, v, world in zip(cases, base_cases, verdicts, worlds):
+        out = Outcome()
+        out.base = v
+        outs.append(out)
+        probes = world.probe_out
+        # model request: the history's model ops with a probe op after each probed history op
+        mreq, index = statuslib.to_model_ops(base_case, v.obs)
+        ops, where, ins = [], {}, {}
+        for i, pr in probes.items():
+            if i < len(index):
+                ins.setdefault(index[i][1], []).append(i)
+        for k, op in enumerate(mreq['ops']):
+            for i in ins.get(k, []):
+                where[i] = len(ops)
+                ops.append(['probe', probe_spec_model(probes[i], case['ntasks'])])
+            ops.append(op)
+        for i in ins.get(len(mreq['ops']), []):
             where[i] = len(ops)
             ops.append(['probe', probe_spec_model(probes[i], case['ntasks'])])
-        ops.append(op)
-    for i in ins.get(len(mreq['ops']), []):
-        where[i] = len(ops)
-        ops.append(['probe', probe_spec_model(probes[i], case['ntasks'])])
-    req = {'model': 'c20', 'mode': 'model', 'ntasks': case['ntasks'], 'npaths': case['npaths'], 'ops': ops}
-    ans = common.drv_batch([req])[0]
-    if 'error' in ans:
-        raise RuntimeError('driver rejected c20 request: %s' % ans['error'])
-    checks, check_tags = [], []
-    for i, pr in sorted(probes.items()):
-        if i not in where:
-            continue
-        m = ans['steps'][where[i]]
-        if m.get('crashed') or (v.crash and v.crash[0] <= i) or (v.divergence and v.divergence[0] <= i):
-            out.count('probe:skipped-after-crash-or-divergence')
-            continue
-        compare_probe(case, i, pr, m, out, checks, check_tags)
-    if checks:
-        res = common.drv_batch([{'model': 'c20', 'mode': 'monitor', 'checks': checks}])[0]['checks']
-        for r, tag in zip(res, check_tags):
-            if 'error' in r:
-                raise RuntimeError('driver rejected c20 check: %s' % r['error'])
-            out.count('monitor:%s:%s' % (tag['clause'], 'holds' if r['holds'] else 'FALSE'))
-            if not r['holds']:
-                out.fails.append(tag)
-    return out
+        reqs.append({'model': 'c20', 'mode': 'model', 'ntasks': case['ntasks'], 'npaths': case['npaths'], 'ops': ops})
+        wheres.append(where)
+    answers = common.drv_batch(reqs)
+    mon_reqs, mon_tags = [], []
+    for case, v, world, out, ans, where in zip(cases, verdicts, worlds, outs, answers, wheres):
+        if 'error' in ans:
+            raise RuntimeError('driver rejected c20 request: %s' % ans['error'])
+        checks, check_tags = [], []
+        for i, pr in sorted(world.probe_out.items()):
+            if i not in where:
+                continue
+            m = ans['steps'][where[i]]
+            if m.get('crashed') or (v.crash and v.crash[0] <= i) or (v.divergence and v.divergence[0] <= i):
+                out.count('probe:skipped-after-crash-or-divergence')
+                continue
+            compare_probe(case, i, pr, m, out, checks, check_tags)
+        mon_reqs.append({'model': 'c20', 'mode': 'monitor', 'checks': checks})
+        mon_tags.append(check_tags)
+    if any(r['checks'] for r in mon_reqs):
+        for out, res, check_tags in zip(outs, common.drv_batch(mon_reqs), mon_tags):
+            for r, tag in zip(res['checks'], check_tags):
+                if 'error' in r:
+                    raise RuntimeError('driver rejected c20 check: %s' % r['error'])
+                out.count('monitor:%s:%s' % (tag['clause'], 'holds' if r['holds'] else 'FALSE'))
+                if not r['holds']:
+                    out.fails.append(tag)
+    for out, world in zip(outs, worlds):
+        out.world = world
+    return outs
 
 
 def probe_spec_model(pr, ntasks):
@@ -727,7 +897,7 @@ def probe_spec_model(pr, ntasks):
     for r in pr['results']:
         a = r['argv']
         if a[0] == 'list' and ('-s' in a):
-            lists.append(list_order(a, ntasks))
+            lists.append(list_order(a, ntasks, pr.get('group')))
         elif a[0] == 'info' and '--no-status' not in a:
             infos.append(int(a[-1][1:]))
     return {'lists': lists, 'infos': infos}
@@ -802,6 +972,8 @@ def compare_probe(case, i, pr, m, out, checks, check_tags):
         if any(e[0] == 'clean-aware' for e in r['events']):
             out.count('clean:dryrun-aware-action-called-with-dryrun')
         # ---------------- (K) write trace
+        r['calls'] = [[c[0], c[1].split(':', 1)[-1] if isinstance(c[1], str) else c[1]] for c in r['calls']
+                      if c[1] != GROUP]          # sub-task names back to task indices; the group task is not modelled
         writes = [c for c in r['calls'] if c[0] in ('set', 'remove', 'remove_all')]
         dumps = [c for c in r['calls'] if c[0] == 'dump']
         if dumps and argv[0] != 'clean':
@@ -812,7 +984,7 @@ def compare_probe(case, i, pr, m, out, checks, check_tags):
         if argv[0] == 'list' and '-s' in argv:
             ml = m['lists'][li]
             li += 1
-            order = list_order(argv, ntasks)
+            order = list_order(argv, ntasks, pr.get('group'))
             model_removes = ml['removes']
             model_db = ml['db']
             shown_impl = parse_list(r['out'])
@@ -841,8 +1013,9 @@ def compare_probe(case, i, pr, m, out, checks, check_tags):
                     check_tags.append(dict(wit, clause='agree-list', task=tname(t), shown=w, ran=eligible[t]))
         elif argv[0] == 'list':
             shown_impl = parse_list(r['out'])
-            if [t for _, t in shown_impl] != list_order(argv, ntasks) or any(l for l, _ in shown_impl):
-                out.divs.append(dict(wit, what='list (no status) lines', impl=shown_impl, model=list_order(argv, ntasks)))
+            if [t for _, t in shown_impl] != list_order(argv, ntasks, pr.get('group')) or any(l for l, _ in shown_impl):
+                out.divs.append(dict(wit, what='list (no status) lines', impl=shown_impl,
+                                     model=list_order(argv, ntasks, pr.get('group'))))
         elif argv[0] == 'info' and '--no-status' not in argv:
             mi = m['infos'][ii]
             ii += 1
@@ -909,6 +1082,9 @@ def compare_probe(case, i, pr, m, out, checks, check_tags):
 def render(case):
     out = statuslib.render(statuslib.strip(case))
     kinds = case.get('clean') or {}
+    if case.get('group'):
+        out.insert(1, 'group task g with sub-tasks %s (named g:t<i> on the command line; `ignore` of all of them is '
+                      'issued as `doit ignore g`)' % ', '.join('g:' + tname(t) for t in sorted(case['group'])))
     if any(v != 'none' for v in kinds.values()):
         out.append('clean attributes: ' + ', '.join('t%s=%s' % kv for kv in sorted(kinds.items()) if kv[1] != 'none'))
     for pos, spec in case.get('probes', []):
@@ -978,6 +1154,18 @@ def perturb(rng, case, defs, nsrc):
     """ops appended before the last probe: the situations the read-only commands must get right"""
     ntasks = case['ntasks']
     ops = []
+    grp = sorted(case.get('group') or [])
+    if grp and rng.random() < 0.6:
+        # the group is ignored as a whole; then one sub-task loses its own mark (forget / a failing `run` cannot: it is
+        # skipped), or is reset
+        ops.append(['ignore', list(grp)])
+        r = rng.random()
+        if r < 0.6:
+            ops.append(['forget', [rng.choice(grp)]])
+        elif r < 0.75:
+            ops.append(['reset-dep', [rng.choice(grp)]])
+        if rng.random() < 0.5:
+            return ops
     t = rng.randrange(ntasks)
     d = defs[t]
     deps = d['deps'] or list(range(nsrc))
@@ -1015,6 +1203,8 @@ def gen_case(rng):
             defs[op[1]] = op[2]
     for t in range(ntasks):
         defs.setdefault(t, {'deps': [], 'targets': [], 'uptodate': []})
+    if ntasks >= 2 and rng.random() < 0.4:
+        case['group'] = sorted(rng.sample(range(ntasks), rng.randint(1 if ntasks == 2 else 2, ntasks)))
     if rng.random() < 0.7:
         case['ops'] += perturb(rng, case, defs, nsrc)
     case['clean'] = {str(t): rng.choice(CLEAN_KINDS) for t in range(ntasks)}
@@ -1068,6 +1258,40 @@ def exhaustive_cases(maxlen):
     return out
 
 
+GRP_PRE = [['edit', 0, 1], ['redefine', 0, {'deps': [0], 'targets': [], 'uptodate': []}],
+           ['redefine', 1, {'deps': [0], 'targets': [], 'uptodate': []}], ['run', {'plan': {}}]]
+GRP_LETTERS = {'J': [['ignore', [0, 1]]], 'j': [['ignore', [0]]], 'G': [['forget', [0]]], 'g': [['forget', [1]]],
+               'T': [['touch', 0]], 'R': [['run', {'plan': {}}]], 'C': [['checker', 'OTHER']], 'S': [['reset-dep', [0]]]}
+
+
+def exhaustive_group_cases(maxlen):
+    """two sub-tasks of one group: every word over ignore group / ignore one / forget one / forget other / touch /
+    run / checker switch / reset-dep"""
+    letters = sorted(GRP_LETTERS)
+    words, seqs = [], ['']
+    for _ in range(maxlen):
+        seqs = [s + a for s in seqs for a in letters]
+        words += seqs
+    out = []
+    for n, w in enumerate(words):
+        checker = statuslib.CHECKERS[(n // 3) % 2]
+        other = statuslib.CHECKERS[1 - (n // 3) % 2]
+        ops = json.loads(json.dumps(GRP_PRE))
+        for a in w:
+            for op in GRP_LETTERS[a]:
+                op = json.loads(json.dumps(op))
+                if op[0] == 'checker':
+                    op[1] = other
+                ops.append(op)
+        cmds = [['list', '--all', '-s'], ['list', '-s', 't1', 't0'], ['info', 't0'], ['info', 't1'], ['list', '-s'],
+                ['clean', '-n', '--forget']]
+        out.append({'backend': statuslib.BACKENDS[n % 3], 'checker': checker, 'ntasks': 2, 'npaths': 1, 'ops': ops,
+                    'word': 'grp:' + w, 'scramble': (n % 4) * 1237, 'group': [0, 1],
+                    'clean': {'0': CLEAN_KINDS[n % len(CLEAN_KINDS)], '1': CLEAN_KINDS[(n // 2) % len(CLEAN_KINDS)]},
+                    'probes': [[-1, {'cmds': cmds}]]})
+    return out
+
+
 def expand_corpus():
     out = []
     for name, c in common.load_corpus('C20'):
@@ -1087,7 +1311,8 @@ def expand_corpus():
 
 
 def case_key(case):
-    return {k: case.get(k) for k in ('backend', 'checker', 'ntasks', 'npaths', 'ops', 'clean', 'probes', 'scramble')}
+    return {k: case.get(k) for k in ('backend', 'checker', 'ntasks', 'npaths', 'ops', 'clean', 'probes', 'scramble', 'group')
+            if k != 'group' or case.get('group')}
 
 
 # ----------------------------------------------------------------------------------------------
@@ -1098,11 +1323,10 @@ def process_batch(batch):
     st = common.WorkerStats()
     shrunk = 0
     reported = 0
-    for origin, case in batch:
-        case = json.loads(json.dumps(case))
-        case.pop('comment', None)
-        case.pop('matrix', None)
-        o = run_case(case)
+    batch = [(origin, {k: v for k, v in json.loads(json.dumps(case)).items() if k not in ('comment', 'matrix')})
+             for origin, case in batch]
+    outcomes = run_cases([case for _, case in batch])
+    for (origin, case), o in zip(batch, outcomes):
         nontrivial = (bool(o.shown & {'run', 'error'}) and bool(o.shown & {'up-to-date', 'ignore'})) or o.removal
         st.case({'history': render(case)}, nontrivial)
         st.traces += o.n_cmds
@@ -1110,6 +1334,7 @@ def process_batch(batch):
         st.count('backend:' + case['backend'])
         st.count('checker0:' + case['checker'])
         st.count('tasks:%d' % case['ntasks'])
+        st.count('sub-tasks:%s' % ('group of %d' % len(case['group']) if case.get('group') else 'none'))
         for op in case['ops']:
             st.count('op:' + op[0])
         for k, n in o.counts.items():
@@ -1180,10 +1405,11 @@ def random_for(ctx, i):
 def run(ctx):
     quick = ctx.tier == 'quick'
     items = [('corpus', c) for _, c in expand_corpus()]
-    ex = exhaustive_cases(2 if quick and ctx.boost == 1 else 3)
-    ex.sort(key=lambda c: len(c['word']))
-    short = [c for c in ex if len(c['word']) <= 1]
-    rest = [c for c in ex if len(c['word']) > 1]
+    deep = not (quick and ctx.boost == 1)
+    ex = exhaustive_cases(3 if deep else 2) + exhaustive_group_cases(3 if deep else 2)
+    ex.sort(key=lambda c: len(c['word'].split(':')[-1]))
+    short = [c for c in ex if len(c['word'].split(':')[-1]) <= 1]
+    rest = [c for c in ex if len(c['word'].split(':')[-1]) > 1]
     items += [('exhaustive', c) for c in short]
     n_random = (140 if quick else 2500) * ctx.boost
     rnd = [('random', gen_case(random_for(ctx, i))) for i in range(n_random)]
@@ -1196,9 +1422,9 @@ def run(ctx):
             items.append(('exhaustive', c))
         ri += k
     items += [('exhaustive', c) for c in rest[ri:]]
-    ctx.extra['exhaustive_small_scope'] = {'alphabet': len(EXH_LETTERS), 'max_len': max(len(c['word']) for c in ex),
-                                           'histories': len(ex)}
-    size = 4 if quick else 6
+    ctx.extra['exhaustive_small_scope'] = {'alphabet': len(EXH_LETTERS), 'group_alphabet': len(GRP_LETTERS),
+                                           'max_len': 3 if deep else 2, 'histories': len(ex)}
+    size = 6
     batches = [items[i:i + size] for i in range(0, len(items), size)]
     per_round = common.NCPU * (6 if quick else 2)
     done = 0
